@@ -51,9 +51,10 @@ def run(ctx):
     recs = gather(ctx)
     check(ctx, recs)
     # the process's local zone is no input of the property: a slice of the same calls is made in a zone with DST
-    zrecs = gather(ctx, tz="EST5EDT,M3.2.0,M11.1.0", scale=0.15)
-    check(ctx, zrecs, zone="US-Eastern-DST")
-    ctx.evaluations += len(zrecs)
+    for zname, tz, sc in (("US-Eastern-DST", "EST5EDT,M3.2.0,M11.1.0", 0.15), ("India+5:30", "IST-5:30", 0.1)):
+        zrecs = gather(ctx, tz=tz, scale=sc)
+        check(ctx, zrecs, zone=zname)
+        ctx.evaluations += len(zrecs)
     ctx.evaluations += len(recs)
     ctx.nontrivial += len({json.dumps([r["u"], r["op"], r["t"], r["k"], r["t1"], r["step"]]) for r in recs
                            if (r["op"] == "range" and r["outs"]) or (r["op"] != "range" and r["out"][:2] != r["t"])})
